@@ -31,6 +31,19 @@ def main(tier, seed):
             prog = tooltier.backend_program(b, seed, i, avoid_known=False, extra_profile=(dict(opt_borrowed_params=True) if i % 5 == 2 else None))
             if i % 6 == 1 and tooltier.add_zst_error(prog, random.Random("c15z/%s/%s/%s" % (seed, i, b))):
                 tooltier.emit_rust.assign_abi_names(prog)
+            if i % 3 == 0 and tooltier.add_special_methods(prog, random.Random("c15sp/%s/%s/%s" % (seed, i, b)), b):
+                tooltier.emit_rust.assign_abi_names(prog)
+            if i % 50 == 7 and b == "nanobind":
+                # directed probe (known finding F33): a property whose name is also the name of a sibling method
+                hosts = [t for t in prog.types() if t.kind == "opaque" and not t.lifetimes]
+                if hosts:
+                    for nm, attr, sk, ret in (("size", None, ("ref", None), ("prim", "u32")), ("fetch_size", '#[diplomat::attr(auto, getter = "size")]', ("ref", None), ("prim", "u32"))):
+                        m_ = tooltier.spec.Method(nm, sk, [], ret)
+                        if attr:
+                            m_.attrs.append(attr)
+                        m_.owner = hosts[0]
+                        hosts[0].methods.append(m_)
+                    tooltier.emit_rust.assign_abi_names(prog)
             if i % 4 == 3 and tooltier.add_traits(prog, random.Random("c15tr/%s/%s/%s" % (seed, i, b)), b):
                 tooltier.emit_rust.assign_abi_names(prog)
             prods = tooltier.prog_productions(prog)
